@@ -52,7 +52,17 @@ ParamTable == [
     RC5_128_12_255 |-> <<128, 12, 255>>,
     RC5_64_20_9 |-> <<64, 20, 9>>,
     RC5_8_0_0 |-> <<8, 0, 0>>,
-    RC5_16_16_3 |-> <<16, 16, 3>> ]
+    RC5_16_16_3 |-> <<16, 16, 3>>,
+    RC5_32_100_16 |-> <<32, 100, 16>>,
+    RC5_32_12_104 |-> <<32, 12, 104>>,
+    RC5_64_205_32 |-> <<64, 205, 32>>,
+    RC5_16_110_200 |-> <<16, 110, 200>>,
+    RC5_8_127_10 |-> <<8, 127, 10>>,
+    RC5_32_128_16 |-> <<32, 128, 16>>,
+    RC5_64_126_99 |-> <<64, 126, 99>>,
+    RC5_16_129_101 |-> <<16, 129, 101>>,
+    RC5_128_209_109 |-> <<128, 209, 109>>,
+    RC5_32_254_8 |-> <<32, 254, 8>> ]
 
 \* limb modulus and lg(w) for word size w
 Mod(w) == IF w = 8 THEN 256 ELSE 65536
